@@ -56,15 +56,15 @@ def gen_case(rng, big):
     nops = int(rng.integers(2, 8 if not big else 12))
     for _ in range(nops):
         if len(meta) >= MAXLIVE:
-            kinds = ['scale', 'shift', 'reverse']
+            kinds = ['scale', 'shift', 'reverse', 'mat']
         else:
-            kinds = ['rt', 'rt', 'rebuild', 'scaled', 'shifted', 'reversed', 'scale', 'shift', 'reverse']
+            kinds = ['rt', 'rt', 'rebuild', 'scaled', 'shifted', 'reversed', 'scale', 'shift', 'reverse', 'mat']
         op = str(rng.choice(kinds))
         i = int(rng.integers(0, len(meta)))
         sysm, ndim, isint = meta[i]
         if op in ('shift', 'shifted') and sysm == 'p':
             op = 'reversed' if op == 'shifted' else 'reverse'
-        if isint and op in ('shift', 'scale'):
+        if isint and op in ('shift', 'scale', 'mat'):
             op = 'reverse'      # integer-dtype twins exist only to be compared and hashed
         if isint and op in ('shifted', 'scaled'):
             op = 'reversed'
@@ -88,6 +88,53 @@ def gen_case(rng, big):
             if op == 'reversed':
                 meta.append(meta[i])
     return {'ops': ops, 'shared': shared}
+
+
+TINY = [2.0 ** -54, 2.0 ** -53, -2.0 ** -54, 2.0 ** -60, 1e-17, -1e-20, 2.0 ** -1074, 1e-300]
+INEXACT = [0.1, -0.3, 1.0 / 3.0, 1e-3, 2.0 ** -52, 3 * 2.0 ** -53, 1e16, 2.0 ** 53, 0.7]
+
+
+def gen_float_case(rng):
+    """Float-shift histories (Cartesian float64 grids, values not necessarily dyadic): in-place and
+    copying shifts by amounts that are absorbed (below half an ulp of every coordinate), partly absorbed,
+    or rounded — the model rounds every stored sum to nearest-even binary64 (`shiftf`), so representation,
+    `==` matrix and hash are still compared exactly."""
+    spec = G.gen_spec(rng, maxn=5, polar_ok=False)
+    r = rng.random()
+    if r < 0.5:
+        # non-dyadic values: the float *is* a rational, the model gets exactly that rational
+        k = float(rng.choice([1.1, 0.3, 1e-3, 7.7e5, 1.0 / 3.0]))
+        if spec['kind'] == 'reg':
+            spec['data'][0] = [v * k for v in spec['data'][0]]
+            spec['data'][2] = [v * k for v in spec['data'][2]]
+        else:
+            spec['data'] = [[v * k for v in a] for a in spec['data']]
+    ndim = spec_ndim(spec)
+    ops = [['new', spec]]
+    nlive = 1
+    for _ in range(int(rng.integers(2, 6))):
+        i = int(rng.integers(0, nlive))
+        c = rng.random()
+        if c < 0.15 and nlive < MAXLIVE:
+            ops.append(['rt', i, 'copy'])
+            nlive += 1
+            continue
+        mode = str(rng.choice(['tiny', 'tiny', 'inexact', 'mixed', 'zero-but-one']))
+        if mode == 'tiny':
+            b = [float(rng.choice(TINY)) for _ in range(ndim)]
+        elif mode == 'inexact':
+            b = [float(rng.choice(INEXACT)) for _ in range(ndim)]
+        elif mode == 'mixed':
+            b = [float(rng.choice(TINY + INEXACT + [0.0, 0.5])) for _ in range(ndim)]
+        else:
+            b = [0.0] * ndim
+            b[int(rng.integers(0, ndim))] = float(rng.choice(TINY))
+        if c < 0.6 and nlive < MAXLIVE:
+            ops.append(['shiftedf', i, b, str(rng.choice(['float64', 'list', 'tuple']))])
+            nlive += 1
+        else:
+            ops.append(['shiftf', i, b, str(rng.choice(['float64', 'list', 'tuple']))])
+    return {'ops': ops, 'shared': False, 'float': True}
 
 
 def twin_of(rng, spec):
@@ -185,9 +232,14 @@ def apply_real(grids, op, pool=None, shared=False):
                     r = grids[op[1]].scale(a)
                     if r is not grids[op[1]]:
                         return 'err:not-self'
-        elif kind in ('shifted', 'shift'):
+        elif kind == 'mat':
+            import warnings
+            with warnings.catch_warnings():
+                warnings.simplefilter('ignore')
+                grids[op[1]].weights        # the getter caches the automatic weights
+        elif kind in ('shifted', 'shift', 'shiftedf', 'shiftf'):
             b = G.as_form(op[2], op[3] if len(op) > 3 else 'float64')
-            if kind == 'shifted':
+            if kind in ('shifted', 'shiftedf'):
                 grids.append(grids[op[1]].shifted(b))
             else:
                 grids[op[1]].shift(b)
@@ -220,7 +272,7 @@ def model_op_line(op):
         a = op[2]
         arg = ('s:' + rat(a[1])) if a[0] == 's' else ('v:' + rat_list(a[1]))
         return 'C10 %s %d %s' % (kind, op[1], arg)
-    if kind in ('shifted', 'shift'):
+    if kind in ('shifted', 'shift', 'shiftedf', 'shiftf'):
         return 'C10 %s %d %s' % (kind, op[1], rat_list(op[2]))
     return 'C10 %s %d' % (kind, op[1])
 
@@ -242,7 +294,7 @@ def run_real(case):
 # ---------------------------------------------------------------------------------------------
 # the property itself on the observations (independent of the Lean model)
 
-INPLACE = ('scale', 'shift', 'reverse')
+INPLACE = ('scale', 'shift', 'reverse', 'shiftf', 'mat')
 
 
 def expected_effect(op, s):
@@ -257,7 +309,9 @@ def expected_effect(op, s):
         if kind == 'reg':
             return [[d * x for d, x in zip(data[0], f)], data[1], [z * x for z, x in zip(data[2], f)]]
         return [[v * x for v in a] for a, x in zip(data, f)]
-    if op[0] == 'shift':
+    if op[0] == 'mat':
+        return data
+    if op[0] in ('shift', 'shiftf'):
         b = op[2]
         if kind == 'reg':
             return [data[0], data[1], [z + x for z, x in zip(data[2], b)]]
@@ -280,7 +334,7 @@ def oracle(steps):
         opname = op[0]
         if status != 'ok':
             src = before[op[1]] if opname != 'new' else None
-            undefined_weights = (opname in ('scale', 'scaled') and src is not None and src['sys'] == 'c' and src['kind'] == 'sep'
+            undefined_weights = (opname in ('scale', 'scaled', 'mat') and src is not None and src['sys'] == 'c' and src['kind'] == 'sep'
                                  and src['w'] is None and any(len(a) < 2 for a in src['data']))
             if opname == 'new':
                 bad.append(('new-raises', 'constructing (or reading the points of) a %s %s grid with argument forms %r / int=%r raised %s' % (
@@ -329,13 +383,30 @@ def oracle(steps):
         for k in range(len(before)):
             if k == target:
                 want = expected_effect(op, before[k])
-                if not same_data(want, snaps[k]['data']):
+                if opname == 'shiftf':
+                    # float shift: every stored sum is the IEEE sum, bit for bit (absorbed shifts leave the value as it was)
+                    if [list(map(float, a)) for a in want] != [list(map(float, a)) for a in snaps[k]['data']]:
+                        bad.append(('mutate-identity shiftf', 'in-place float shift by %r did not store fl(x + b) for every coordinate' % (op[2],)))
+                elif not same_data(want, snaps[k]['data']):
                     bad.append(('mutate-identity %s' % opname, 'in-place %s did not change the coordinates as specified' % opname))
+                if opname == 'mat' and (obs['eq'][k][k] is not True):
+                    bad.append(('mat-identity', 'reading .weights changed the identity of the grid'))
                 changed = G.ident(before[k]) != ids[k]
                 continue
             if G.ident(before[k]) != ids[k] or before[k]['w'] != snaps[k]['w']:
                 bad.append(('alias %s' % opname, '%s on grid %s changed another live grid (%s %s)' % (
                     opname, op[1] if opname != 'new' else '-', snaps[k]['sys'], snaps[k]['kind'])))
+        if opname == 'shiftedf':
+            # the copying form: fresh grid with fl(x + b); equal to the source iff every sum was absorbed
+            want = expected_effect(['shiftf', op[1], op[2]], before[op[1]])
+            absorbed = [list(map(float, a)) for a in want] == [list(map(float, a)) for a in before[op[1]]['data']]
+            if [list(map(float, a)) for a in want] != [list(map(float, a)) for a in snaps[n - 1]['data']]:
+                bad.append(('mutate-identity shiftf', 'shifted(%r) did not store fl(x + b) for every coordinate' % (op[2],)))
+            elif obs['eq'][op[1]][n - 1] is not absorbed:
+                bad.append(('float-shift-identity', 'g.shifted(%r) == g is %s although the stored values %s' % (
+                    op[2], obs['eq'][op[1]][n - 1], 'are all unchanged (shift absorbed)' if absorbed else 'changed')))
+            elif absorbed and obs['hash'][op[1]] != obs['hash'][n - 1]:
+                bad.append(('float-shift-identity', 'an absorbed shift changed the hash'))
         if opname in ('rt', 'rebuild'):
             if obs['eq'][op[1]][n - 1] is not True or obs['eq'][n - 1][op[1]] is not True:
                 bad.append(('eq-identical',
@@ -453,6 +524,18 @@ DIRECTED = [
 ]
 
 
+DIRECTED_FLOAT = [
+    # the caveat of `shift_changes`: a shift below half an ulp of every coordinate is absorbed (== stays True, same hash)
+    {'float': True, 'shared': False, 'ops': [['new', S('c', 'sep', [[1.0, 2.0, -1.5]])], ['shiftedf', 0, [2.0 ** -54]], ['shiftf', 0, [2.0 ** -54]], ['shiftedf', 0, [2.0 ** -52]]]},
+    {'float': True, 'shared': False, 'ops': [['new', S('c', 'reg', [[0.5], [3], [1.0]])], ['shiftedf', 0, [2.0 ** -54]], ['shiftedf', 0, [2.0 ** -52]], ['shiftf', 0, [2.0 ** -53]], ['shiftf', 0, [3 * 2.0 ** -53]]]},
+    # partly absorbed: the small coordinate moves, the large one does not
+    {'float': True, 'shared': False, 'ops': [['new', S('c', 'uns', [[1.0, 2.0 ** -30], [4.0, 0.0]])], ['shiftedf', 0, [2.0 ** -60, 2.0 ** -60]], ['shiftf', 0, [2.0 ** -60, 0.0]]]},
+    # inexact sums are rounded to nearest-even, ties included
+    {'float': True, 'shared': False, 'ops': [['new', S('c', 'sep', [[0.1, 0.2, 0.30000000000000004], [1.0, 1.0 + 2.0 ** -52]])], ['shiftedf', 0, [0.1, 2.0 ** -53]], ['shiftf', 0, [0.7, 3 * 2.0 ** -53]],
+                                              ['rt', 0, 'copy'], ['shiftedf', 2, [1e16, -1e-20]]]},
+]
+
+
 def check_case(ctx, case, label):
     steps = run_real(case)
     bad = oracle(steps)
@@ -461,6 +544,12 @@ def check_case(ctx, case, label):
     ctx.count('family:' + label)
     for st in steps:
         ctx.count('op:' + st['op'][0])
+        if st['op'][0] in ('shiftf', 'shiftedf') and st['status'] == 'ok':
+            src = st['before'][st['op'][1]]
+            want = expected_effect(['shiftf', st['op'][1], st['op'][2]], src)
+            same = [x == y for a, b in zip(want, src['data']) for x, y in zip(a, b)] if src['kind'] != 'reg' else [x == y for x, y in zip(want[2], src['data'][2])]
+            nz = any(v != 0 for v in st['op'][2])
+            ctx.count('float-shift:' + ('zero-shift' if not nz else 'absorbed' if all(same) else 'partly-absorbed' if any(same) else 'all-changed'))
         if st['status'] != 'ok':
             ctx.count('status:' + st['status'])
     last = steps[-1]['obs']
@@ -499,7 +588,11 @@ def run(ctx):
                 'scalar/0-d array; weights likewise; twins with int64/int32/int16/int8/bool/Python-int coordinates; scale/shift '
                 'arguments as Python/NumPy scalars, 0-d, one-element arrays/lists, float32/longdouble arrays, lists, tuples), '
                 'then copy / to_dict+from_dict / pickle round trips, independent reconstruction (optionally with '
-                'integer dtype), scaled/shifted/reversed and their in-place forms. After EVERY operation all live grids are '
+                'integer dtype), scaled/shifted/reversed and their in-place forms, reading .weights (materialises the cached '
+                'weights: identity must not move). Plus float-shift histories: Cartesian float64 grids with dyadic or non-dyadic values '
+                'shifted (in place / copying) by amounts below half an ulp of every coordinate (absorbed: == stays True, hash the '
+                'same), partly absorbed, or rounded; the model rounds every stored sum to nearest-even binary64 and must reproduce '
+                'representation, == matrix and hash bit for bit. After EVERY operation all live grids are '
                 're-read: snapshots (aliasing), the full == matrix, and all hashes. Oracle: == must coincide with identity of '
                 '(system, kind, coordinate arrays) read from the objects; reflexive/symmetric/transitive; equal => same hash; '
                 'hash never raises; untouched grids keep their snapshot; the mutated grid has the specified new coordinates (each axis '
@@ -511,9 +604,11 @@ def run(ctx):
                         'scale on a Cartesian separated grid with an axis of fewer than two points and no stored weights raises IndexError '
                         '(automatic weights undefined) and is treated as outside the quantifier']
     n = ctx.scale(2500, 20000)
-    cases = [(c, 'directed') for c in DIRECTED + DIRECTED_SHARED]
+    cases = [(c, 'directed') for c in DIRECTED + DIRECTED_SHARED + DIRECTED_FLOAT]
     for k in range(n):
         cases.append((gen_case(ctx.rng, big=(ctx.tier == 'thorough' and k % 4 == 0)), 'random'))
+    for k in range(ctx.scale(300, 2500)):
+        cases.append((gen_float_case(ctx.rng), 'float-shift'))
     all_lines = []
     plan = []
     for case, label in cases:
@@ -571,6 +666,12 @@ def run(ctx):
                     stop = True
                     break
                 if not G.exact_same(ms, obs['snaps'][k]):
+                    if case.get('float'):
+                        # the float model (every stored sum rounded to nearest-even binary64) must reproduce the bits
+                        ctx.disagree('C10 float shift', {'case': case, 'after': op, 'grid': k, 'impl': obs['snaps'][k]['data'],
+                                                         'model': out[base + m['show'] + k][:300]})
+                        stop = True
+                        break
                     inexact += 1
                     continue
                 hk = obs['hash'][k]
